@@ -1251,6 +1251,70 @@ fn main() {
     }
     out.flush();
 
+    // big bodies in pieces: a body of many reads, small and large ones mixed (a few bytes,
+    // then most of it; most of it, then a few bytes; ...), content-length and chunked, on the
+    // endpoints with a large limit.  What arrives must be what was sent, in order.
+    {
+        let mut rng = Rng::from_env(477);
+        let sizes: &[usize] = if thorough { &[4096, 4097, 5000, 8192, 9000, 16384, 20000, 70000] } else { &[4097, 5000, 9000, 20000] };
+        let mut k = 0u64;
+        for &size in sizes {
+            for shape in 0..6 {
+                for ep in ["bigraw", "bigstream"] {
+                    k += 1;
+                    let payload: Vec<u8> = (0..size).map(|i| ((i as u64 * 31 + k * 7 + (i as u64 / 251)) % 251) as u8).collect();
+                    // (sizes of the pieces the body is written in; the last takes the rest)
+                    let pieces: Vec<usize> = match shape {
+                        0 => vec![10],
+                        1 => vec![size - 10],
+                        2 => vec![1, 4096],
+                        3 => vec![100, 100, size / 2],
+                        4 => vec![size / 2],
+                        _ => (0..rng.range(1, 5)).map(|_| rng.range(1, (size / 2) as u64) as usize).collect(),
+                    };
+                    let chunked = k % 2 == 0;
+                    let framing = if chunked {
+                        // chunk boundaries = piece boundaries
+                        Framing::Ch { splits: pieces.clone(), exts: vec![], last_ext: vec![], trailers: vec![] }
+                    } else {
+                        Framing::Cl
+                    };
+                    let rq = Req {
+                        ep,
+                        method: "PUT",
+                        target: format!("/{}", ep).into_bytes(),
+                        ct: Some(b"application/octet-stream".to_vec()),
+                        framing,
+                        payload: payload.clone(),
+                        meta: String::new(),
+                        sent_canon: format!("s{}", hex(&payload)),
+                        nonce: format!("bg{:x}", rng.next()),
+                    };
+                    // cut the wire body where the pieces end (for chunked: after each chunk's
+                    // size line + data + CRLF)
+                    let mut cuts = Vec::new();
+                    let mut at = 0usize;
+                    let mut left = size;
+                    for p in &pieces {
+                        let p = (*p).max(1).min(left);
+                        if p == 0 {
+                            break;
+                        }
+                        at += if chunked { format!("{:x}", p).len() + 2 + p + 2 } else { p };
+                        left -= p;
+                        cuts.push(at);
+                        if left == 0 {
+                            break;
+                        }
+                    }
+                    let a = single_in_pieces(addr, &rq, &cuts, std::time::Duration::from_millis(15));
+                    emit(&mut out, "sv", &mut id, &rq, a, None);
+                }
+            }
+        }
+        out.flush();
+    }
+
     // cc: concurrency
     let mut rng = Rng::from_env(509);
     let before_all = ctx.count("all");
